@@ -19,6 +19,15 @@ Definition judge_action (settled : bool) (c e : Z) (b : abind) (o : out) : list 
       (5, implb settled (forallb (fun ib => match ib_mods ib with
                                              | (id, _) :: _ => match find_mod id lg with Some _ => true | None => false end
                                              | [] => true end) (ab_inputs b))) ::
+      (* "each input's raw value passes through that input's modifiers ..., the input's own state is then derived from
+         its conditions": every input-level condition is shown the value AFTER the input's modifiers, and every
+         action-level condition the value after the action-level modifiers *)
+      (6, forallb (fun ib => match last_mod_out (ib_mods ib) lg with
+                             | Some v => forallb (fun ic => match find_cond (fst ic) lg with Some (vin, _, _) => veqb vin v | None => true end) (ib_conds ib)
+                             | None => true end) (ab_inputs b) &&
+          match last_mod_out (ab_mods b) lg with
+          | Some v => forallb (fun ic => match find_cond (fst ic) lg with Some (vin, _, _) => veqb vin v | None => true end) (ab_conds b)
+          | None => true end) ::
       match first_mod_in (ab_mods b) lg, last_mod_out (ab_mods b) lg, results_of (ab_conds b) lg with
       | Some merged, Some vfinal, Some ars =>
           (2, veqb (sn_value s) (convert d vfinal)) ::
